@@ -68,7 +68,11 @@ func (c *queuecontroller) updateQueue(oldObj, newObj interface{}) {
 	oldQueue := oldObj.(*schedulingv1beta1.Queue)
 	newQueue := newObj.(*schedulingv1beta1.Queue)
 
-	if oldQueue.Spec.Parent != newQueue.Spec.Parent {
+	// Re-sync on a parent change and when the closed-by-parent marker changes: a child
+	// that was marked while its parent closed must be looked at again once the marker
+	// is visible, otherwise a parent re-opened in between never re-opens it.
+	if oldQueue.Spec.Parent != newQueue.Spec.Parent ||
+		oldQueue.Annotations[ClosedByParentAnnotationKey] != newQueue.Annotations[ClosedByParentAnnotationKey] {
 		c.addQueue(newObj)
 	}
 }
